@@ -163,3 +163,23 @@ PROPS['C11'] = dict(
     assumptions=COMMON_ASSUME + ['analysis data and extraction cost under renaming are covered by C14/C06 runs, not here',
                                  'rewrite iterations under renaming are not yet part of this suite'],
 )
+
+PROPS['C13'] = dict(
+    level='translation_validation',
+    module='SlotVerif.Props.C13',
+    suites=[dict(name='hist', variant='default', shrink=False,
+                 quick=dict(count=300, set={'ops': 40}), thorough=dict(count=5000, set={'ops': 120})),
+            dict(name='hist', variant='checks', shrink=False,
+                 quick=dict(count=100, set={'ops': 40}), thorough=dict(count=1500, set={'ops': 120}))],
+    rule='corr.history + corr.progress.events: long mixed histories (a structured seed history from the C01 generator, then random '
+         'insertions — fresh terms, contexts around and permuted copies of earlier terms — and unions, 40 operations quick / 120 '
+         'thorough) on one e-graph that is never re-checked in between (EGraph::check would heal stale union-find entries). After '
+         'EVERY operation: every pair that ever compared equal still does; every invocation ever returned can be canonicalised and '
+         'compared without panic, canonicalises to a live class with exactly the class slots as keys, idempotently, and is eq to '
+         'its canonical form; its slot count never grows; and the progress measure before/after together with the hook event log '
+         'of the operation is judged by the Lean event model (stepOK). non-trivial = some operation logged a shrink or addsym '
+         'event; distinct = by hash of the case line',
+    trusted_base=EG_TRUST + ['event hooks (alloc/merge/shrink/addsym call sites, commit 01d0fa8) are assumed to sit at every place that changes the measure; a missing site shows up as a stepOK failure'],
+    assumptions=COMMON_ASSUME + ['extraction from old handles is exercised under C06 (open finding F2 makes the extractor unusable on classes with redundant-slot nodes)',
+                                 'rewrite iterations in long histories: covered by the C15/C03 runs'],
+)
